@@ -695,7 +695,7 @@ func (a *ArraySubscriptExpression) SQL() string {
 	}
 	sb := getBuilder()
 	defer putBuilder(sb)
-	sb.WriteString(operandSQL(cur.Array, precPrimary))
+	sb.WriteString(subscriptBaseSQL(cur.Array))
 	for i := len(chain) - 1; i >= 0; i-- {
 		for _, idx := range chain[i].Indices {
 			sb.WriteByte('[')
@@ -718,7 +718,19 @@ func (a *ArraySliceExpression) SQL() string {
 	if a.End != nil {
 		end = exprSQL(a.End)
 	}
-	return fmt.Sprintf("%s[%s:%s]", operandSQL(a.Array, precPrimary), start, end)
+	return fmt.Sprintf("%s[%s:%s]", subscriptBaseSQL(a.Array), start, end)
+}
+
+// subscriptBaseSQL serialises the expression a subscript or slice is applied to.
+// The parser reads [ ] only after a name, another subscript or a parenthesised
+// expression, so every other base (ARRAY[...], a call, CASE ...) keeps its
+// parentheses.
+func subscriptBaseSQL(e Expression) string {
+	switch e.(type) {
+	case *Identifier, *ArraySubscriptExpression, *ArraySliceExpression:
+		return exprSQL(e)
+	}
+	return "(" + exprSQL(e) + ")"
 }
 
 // GROUP BY advanced expressions
